@@ -1,5 +1,5 @@
 #!/usr/bin/env python3
-"""seedtest.py <seed-out-dir> [1|2] [--checks C05,C06]
+"""seedtest.py <seed-out-dir> [1|2] [--checks C05,C06] [--as N]
 Confirms a seeded defect in a scratch worktree (builds, existing tests pass, demo fails with / passes without),
 stores it under /verif/seeded/<id>-<n>/, then applies it to /repo, runs the property's quick check, and reverts."""
 import json, os, re, shutil, subprocess, sys, time
@@ -19,9 +19,12 @@ def main():
     meta = json.load(open("%s/meta%s.json" % (out, sfx)))
     pid = meta["property"]
     checks = [pid]
+    store_as = n
     for i, a in enumerate(sys.argv):
         if a == "--checks":
             checks = sys.argv[i + 1].split(",")
+        if a == "--as":
+            store_as = sys.argv[i + 1]
     patch = "%s/patch%s.diff" % (out, sfx)
     demo = "%s/demo%s" % (out, sfx)
     cmd = meta["demo_cmd"]
@@ -82,7 +85,7 @@ def main():
     finally:
         sh("git -C /repo checkout -- . && git -C /repo clean -fdq")
     # store
-    dest = os.path.join(V, "seeded", "%s-%s" % (pid, n))
+    dest = os.path.join(V, "seeded", "%s-%s" % (pid, store_as))
     shutil.rmtree(dest, ignore_errors=True)
     os.makedirs(dest)
     shutil.copy(patch, os.path.join(dest, "patch.diff"))
